@@ -225,11 +225,18 @@ void fault_recovered(Ctx &c, const std::string &what, int first_err, bool alloc_
 void c11_discipline(Ctx &c, const std::string &site, const char *fn, bool failed, int err, bool installed, int mode)
 {
     if (c.violated || !c.c11) return;
-    int last = -1, last_e = 0;
+    int last = -1, last_e = 0, nreports = 0;
     for (auto &cb : g_sim.callbacks) {
 	if (cb.msg.empty() || cb.msg.find('\n') != std::string::npos) { c.violate("c11", site + ":message", strf("%s handed the error function a message that is not a single line: %s", fn, Json(cb.msg).str().c_str())); return; }
 	if (cb.category < VNAERR_SYSTEM || cb.category > VNAERR_INTERNAL) { c.violate("c11", site + ":category", strf("%s reported category %d", fn, cb.category)); return; }
-	if (cb.category != VNAERR_WARNING) { last = cb.category; last_e = cb.err; }
+	if (cb.category != VNAERR_WARNING) {
+	    last = cb.category; last_e = cb.err;
+	    // reports are counted per object (error_arg): a vnacal call that fails inside the caller's vnadata_t
+	    // legitimately reports once through each object's error function
+	    int same = 0;
+	    for (auto &cb2 : g_sim.callbacks) if (cb2.category != VNAERR_WARNING && cb2.arg == cb.arg) ++same;
+	    nreports = std::max(nreports, same);
+	}
     }
     if (!g_sim.callbacks.empty()) c.count("c11.calls_with_callback");
     if (!installed && !g_sim.callbacks.empty()) { c.violate("c11", site + ":callback", strf("%s called an error function although none was installed", fn)); return; }
@@ -240,6 +247,8 @@ void c11_discipline(Ctx &c, const std::string &site, const char *fn, bool failed
 	return;
     }
     if (err == 0) { c.violate("c11", site + ":errno", strf("%s returned its failure value with errno 0", fn)); return; }
+    if (installed && mode == C11_MUST && nreports > 1) { c.violate("c11", site + ":callback", strf("%s reported %d errors for one failing call: \"%s\" ... \"%s\"", fn, nreports, g_sim.callbacks.front().msg.c_str(), g_sim.callbacks.back().msg.c_str())); return; }
+    if (nreports > 1) c.count("c11.multiple_reports_seen");
     if (installed && mode == C11_MUST && last < 0) { c.violate("c11", site + ":callback", strf("%s failed (errno %s) without calling the error function", fn, errno_name(err))); return; }
     if (last >= 0) {
 	int want = last == VNAERR_USAGE ? EINVAL : last == VNAERR_MATH ? EDOM : last == VNAERR_SYNTAX ? EBADMSG : last == VNAERR_VERSION ? ENOPROTOOPT : last == VNAERR_INTERNAL ? ENOSYS : 0;
@@ -265,7 +274,8 @@ void c11_auto(Ctx &c, const char *fn, bool failed, int err)
     // vnaproperty queries answer -1 / NULL for a node that exists but is null and leave errno alone
     // (vnaproperty(3) documents this for get_subtree and is silent for the others): errno is judged
     // by the document model at the call site, not here
-    if (failed && err == 0 && (f == "vnaproperty_type" || f == "vnaproperty_count" || f == "vnaproperty_keys" || f == "vnaproperty_get" || f == "vnaproperty_get_subtree")) { c.count("c11.null_node_query_seen"); return; }
+    if (failed && err == 0 && (f == "vnaproperty_type" || f == "vnaproperty_count" || f == "vnaproperty_keys" || f == "vnaproperty_get" || f == "vnaproperty_get_subtree" ||
+		f == "vnacal_property_type" || f == "vnacal_property_count" || f == "vnacal_property_keys" || f == "vnacal_property_get" || f == "vnacal_property_get_subtree")) { c.count("c11.null_node_query_seen"); return; }
     c11_discipline(c, f, fn, failed, err, starts("vnaproperty_") && mode != C11_MUST ? false : c.cb_installed, mode);
 }
 
